@@ -13,7 +13,7 @@ import itertools
 import struct
 
 ID = "C07"
-VARIANTS = ["repaired", "defective"]
+# single model variant: both recorded findings are fixed in /repo (7065ffb, 890d5a0); a regression to the old panics is a VIOLATION
 
 _H = "harness/C07/"
 
@@ -993,17 +993,6 @@ def classify(case_line, impl, model):
     k = next((i for i, (a, b) in enumerate(zip(it, mt)) if a != b), min(len(it), len(mt)))
     return "P", "%s: parsed value differs from the proved model at token %d: implementation %r, model %r" % (
         e, k, " ".join(it[max(0, k - 1):k + 3]), " ".join(mt[max(0, k - 1):k + 3]))
-
-
-def signature(case_line, impl, models):
-    e = case_line.split(" ", 1)[0]
-    p = _payload(case_line)
-    if impl == "panic" and models.get("defective") == "panic" and len(p) >= 4 and ((p[2] << 8) | p[3]) < 4:
-        if e in ("disp", "fzsess"):
-            return "HandleFrame-declared-length-below-4"
-        if e == "ppphdr":
-            return "ParsePacket-declared-length-below-4"
-    return None
 
 
 def shrink(case_line):
